@@ -6,7 +6,7 @@ cd /repo || exit 2
 if ! git diff --quiet; then echo "repo dirty, refusing"; exit 2; fi
 git apply "$patch" || { echo "patch does not apply"; exit 2; }
 trap 'git -C /repo checkout -- . ; git -C /repo clean -fdq -- . 2>/dev/null' EXIT
-rc=0
+rc=0; export VF_EVIDENCE_DIR=/tmp/vf-mutate-ev
 for p in "$@"; do
   /verif/vf check "$p" ; r=$?
   echo "== $p exit $r"
